@@ -1,5 +1,5 @@
 #!/usr/bin/env python3
-"""recheck.py [--seed N] [--jobs K] [--only PREFIX] — development aid: re-run the quick check of every stored seeded
+"""recheck.py [--seed N] [--jobs K] [--only PREFIX] [--match SUBSTRING] — development aid: re-run the quick check of every stored seeded
 change (seeded/<name>/patch.diff) against the CURRENT machinery, without re-confirming the change itself
 (seedtest.py does that when a change is first stored).
 
@@ -11,6 +11,7 @@ V = os.path.dirname(os.path.abspath(__file__))
 seed = sys.argv[sys.argv.index("--seed") + 1] if "--seed" in sys.argv else "1"
 jobs = int(sys.argv[sys.argv.index("--jobs") + 1]) if "--jobs" in sys.argv else 4
 only = sys.argv[sys.argv.index("--only") + 1] if "--only" in sys.argv else ""
+match = sys.argv[sys.argv.index("--match") + 1] if "--match" in sys.argv else ""
 
 def one(name):
     d = os.path.join(V, "seeded", name)
@@ -47,7 +48,7 @@ def one(name):
     finally:
         shutil.rmtree(s, ignore_errors=True)
 
-names = sorted(n for n in os.listdir(os.path.join(V, "seeded")) if n.startswith(only) and os.path.exists(os.path.join(V, "seeded", n, "patch.diff")))
+names = sorted(n for n in os.listdir(os.path.join(V, "seeded")) if n.startswith(only) and match in n and os.path.exists(os.path.join(V, "seeded", n, "patch.diff")))
 with cf.ThreadPoolExecutor(max_workers=jobs) as ex:
     for name, verdict in ex.map(one, names):
         print(name, verdict, flush=True)
